@@ -114,16 +114,13 @@ func c20Pointer(p []any) string {
 	return b.String()
 }
 
+// c20Deep renders an n-deep nest as raw JSON text: it is one opaque node for later mutations (walking
+// a 10^4-deep tree to enumerate nodes would make the harness, not the library, slow)
 func c20Deep(n int, obj bool) any {
-	var v any = 1
-	for i := 0; i < n; i++ {
-		if obj {
-			v = map[string]any{"a": v}
-		} else {
-			v = []any{v}
-		}
+	if obj {
+		return json.RawMessage(strings.Repeat(`{"a":`, n) + "1" + strings.Repeat("}", n))
 	}
-	return v
+	return json.RawMessage(strings.Repeat("[", n) + "1" + strings.Repeat("]", n))
 }
 
 const c20DupMarker = "\x00dup:"
